@@ -15,39 +15,49 @@ export GOFLAGS=-mod=mod GOPROXY=off
 [ -x bin/govc ] || (cd govc && go build -o /verif/bin/govc .)
 list=$(mktemp)
 python3 - "$want" > "$list" <<'PY'
-import json,glob,os,sys
+# one line per mutant: "<expected property> <patch> <all claimed properties with a unit in a touched package>"
+import json,glob,os,sys,subprocess
 want=sys.argv[1].split()
 idx=json.load(open('/verif/selftest/mutants/index.json'))
 out=[]
 for p,props in sorted(idx.items()):
-    for pr in props: out.append((pr,'/verif/selftest/mutants/'+p))
+    out.append((props[0],'/verif/selftest/mutants/'+p))
 for d in sorted(glob.glob('/verif/seeded/*/')):
     m=os.path.join(d,'meta.json'); pf=os.path.join(d,'patch.diff')
     if os.path.exists(m) and os.path.exists(pf):
-        meta=json.load(open(m))
-        for pr in str(meta.get('detected_by_checks') or meta['property']).replace(',',' ').split():
-            out.append((pr,pf))
+        out.append((json.load(open(m))['property'],pf))
 for pf in sorted(glob.glob('/verif/selftest/local/*/*.patch')):
     out.append((pf.split('/')[-2],pf))
 for pr,pf in out:
-    if not want or pr in want: print(pr,pf)
+    if want and pr not in want: continue
+    aff=subprocess.run(['python3','/verif/tools/props_for_patch.py',pf],capture_output=True,text=True).stdout.split()
+    if pr not in aff: aff=[pr]+aff
+    aff=[pr]+[a for a in aff if a!=pr]
+    print(pr,pf,','.join(aff))
 PY
 run_one() {
-  prop=$1; patch=$2
+  prop=$1; patch=$2; all=$3
   s=$(mktemp -d "${TMPDIR:-/var/tmp}/govc_selftest.XXXXXX")
   rsync -a --exclude .git /repo/ "$s/"
   if ! (cd "$s" && patch -p1 -s --no-backup-if-mismatch < "$patch" >/dev/null 2>&1); then
     echo "SELFTEST skipped  $prop $patch (does not apply to the current tree)"; rm -rf "$s"; return
   fi
-  out=$(GOVC_REPO="$s/rolling-shutter" GOVC_OUT="$s/out" GOVC_SELFTEST=1 timeout 1200 /verif/bin/govc check -prop "$prop" -tier quick 2>&1); code=$?
-  first=$(echo "$out" | grep '^VIOLATION' | sed 's/.*obligation="//; s/\[.*//' | sort | uniq -c | awk '{printf "%s(x%s) ", $2, $1}' | cut -c1-400)
-  if [ $code -eq 1 ] && [ -n "$first" ]; then echo "SELFTEST detected $prop $patch :: $first"
-  else echo "SELFTEST MISSED   $prop $patch (exit $code) $(echo "$out" | tail -1 | cut -c1-160)"; fi
+  # the property the change was written against is checked first; if it stays silent the other claimed
+  # properties with a unit in a touched package are tried (every check runs on every change in practice)
+  for p in $(echo "$all" | tr ',' ' '); do
+    out=$(GOVC_REPO="$s/rolling-shutter" GOVC_OUT="$s/out" GOVC_SELFTEST=1 timeout 1200 /verif/bin/govc check -prop "$p" -tier quick 2>&1); code=$?
+    first=$(echo "$out" | grep '^VIOLATION' | sed 's/.*obligation="//; s/\[.*//' | sort | uniq -c | awk '{printf "%s(x%s) ", $2, $1}' | cut -c1-400)
+    if [ $code -eq 1 ] && [ -n "$first" ]; then
+      if [ "$p" = "$prop" ]; then echo "SELFTEST detected $prop $patch :: $first"; else echo "SELFTEST detected $prop $patch (by the check of $p) :: $first"; fi
+      rm -rf "$s"; return
+    fi
+  done
+  echo "SELFTEST MISSED   $prop $patch (exit $code; checks tried: $all) $(echo "$out" | tail -1 | cut -c1-120)"
   rm -rf "$s"
 }
 export -f run_one
 res=$(mktemp)
-xargs -P "$J" -L 1 bash -c 'run_one "$0" "$1"' < "$list" | tee "$res"
+xargs -P "$J" -L 1 bash -c 'run_one "$0" "$1" "$2"' < "$list" | tee "$res"
 d=$(grep -c '^SELFTEST detected' "$res"); m=$(grep -c '^SELFTEST MISSED' "$res"); k=$(grep -c '^SELFTEST skipped' "$res")
 echo "SELFTEST summary: detected=$d missed=$m skipped=$k"
 rm -f "$list" "$res"
